@@ -277,13 +277,13 @@ PROPS["C14"] = {
              "server declaring no more results while a region scanner is open — reports the error / cancellation exactly once and "
              "io.EOF from then on, Close is idempotent, and after all spawned goroutines have run the server has no scanner of this scan "
              "left open."
-             " Also: a request error followed by cancellation; cancellation while a request is outstanding, then Next again; a request error comes together with the part of the row already assembled.",
-    "outside": "lease expiry on the server; the renew loop; scans created with the internal CloseScanner option over more than one response",
+             " Also: a request error followed by cancellation; cancellation while a request is outstanding, then Next again; a request error comes together with the part of the row already assembled; the scan context ends either by cancellation or by a deadline that passes (close requests created after the expiry still reach the server).",
+    "outside": "a deadline passing while an earlier close request is still waiting to be scheduled; lease expiry on the server; the renew loop; scans created with the internal CloseScanner option over more than one response",
     "assumptions": ["model server as in C06"],
     "jobs": [
-        {"name": "scan_endings_forward", "pkg": "root", "entry": "VerifScanEndings", "reach": ["ended", "closed-early", "cancelled", "failed", "failed-then-cancelled", "error-with-partial-row"],
+        {"name": "scan_endings_forward", "pkg": "root", "entry": "VerifScanEndings", "reach": ["ended", "closed-early", "cancelled", "expired", "failed", "failed-then-cancelled", "error-with-partial-row"],
          "params": {"quick": {"ROWS": 2, "REGIONS": 2, "RESP": 3, "NROWS": 2, "REVERSED": 0, "KEYL": 1}, "thorough": {"ROWS": 3, "REGIONS": 2, "RESP": 3, "NROWS": 2, "REVERSED": 0, "KEYL": 1}}},
-        {"name": "scan_endings_reversed", "pkg": "root", "entry": "VerifScanEndings", "reach": ["ended", "closed-early", "cancelled", "failed", "failed-then-cancelled", "error-with-partial-row"],
+        {"name": "scan_endings_reversed", "pkg": "root", "entry": "VerifScanEndings", "reach": ["ended", "closed-early", "cancelled", "expired", "failed", "failed-then-cancelled", "error-with-partial-row"],
          "params": {"quick": {"ROWS": 2, "REGIONS": 2, "RESP": 2, "NROWS": 2, "REVERSED": 1, "KEYL": 1}, "thorough": {"ROWS": 3, "REGIONS": 2, "RESP": 3, "NROWS": 2, "REVERSED": 1, "KEYL": 1}}},
         {"name": "scan_cancel_outstanding", "steps": 60000, "pkg": "root", "entry": "VerifCancelScan", "reach": ["cancelled"], "watchdog": 20,
          "params": {"quick": {"NROWS": 1}, "thorough": {"NROWS": 1}}},
@@ -349,7 +349,7 @@ PROPS["C02"] = {
              "region in every order, any action as an exception, any region as a region exception, cells in the trailing cellblock in "
              "response order: each call receives the result carrying its index and exactly its cells. Concurrent registration yields "
              "distinct call ids under every interleaving."
-             " Region-level exceptions of two regions are delivered each to the calls of its own region.",
+             " Region-level exceptions of two regions are delivered each to the calls of its own region. One caller of the multi may give up before the flush (dropped from the request) or between send and decode (nothing claimed for it; the others still get their own results and cells).",
     "outside": "more than CALLS calls; non-conforming responses (C11); flush timing of the batching goroutine (grouping is quantified "
                "directly); true parallel memory effects",
     "assumptions": ["responses are handled one at a time by the single reader goroutine",
@@ -357,7 +357,7 @@ PROPS["C02"] = {
     "jobs": [
         {"name": "callid_correlation", "pkg": "region", "entry": "VerifCallIDCorrelation", "stubs": RECV_STUBS, "reach": ["correlated"],
          "params": {"quick": {"CALLS": 2, "CELLS": 1, "protoMax": 1, "protoFixed": 1}, "thorough": {"CALLS": 3, "CELLS": 2, "protoMax": 1, "protoFixed": 1}}},
-        {"name": "multi_correlation", "pkg": "region", "entry": "VerifMultiCorrelation", "stubs": RECV_STUBS, "reach": ["correlated"], "native_retries": 10,
+        {"name": "multi_correlation", "pkg": "region", "entry": "VerifMultiCorrelation", "stubs": RECV_STUBS, "reach": ["correlated", "gave-up-after-send"], "native_retries": 10,
          "params": {"quick": {"CALLS": 2, "CELLS": 1, "protoMax": 1, "protoFixed": 1}, "thorough": {"CALLS": 2, "CELLS": 2, "protoMax": 1, "protoFixed": 1}}},
         {"name": "compressed_cells", "pkg": "region", "entry": "VerifCompressedCells", "stubs": RECV_STUBS, "reach": ["held"], "native_retries": 5,
          "params": {"quick": {"protoMax": 1, "protoFixed": 1}, "thorough": {"protoMax": 1, "protoFixed": 1}}},
